@@ -97,7 +97,8 @@ def step (r : Reg Inst) (line : String) : Reg Inst × Option String :=
   | ["g1", name, id] =>
     match getterCall name with
     | some c => call id c
-    | none => other name id (if name == "RunAccumulated" then some .rerun else none)
+    | none => other name id (if name == "RunAccumulated" then some .runAcc
+                             else if name == "ClearAccumulatedLines" then some .clearAcc else none)
   | ["g2", name, id, _] =>
     match getterCall name with
     | some c => call id c
@@ -118,7 +119,8 @@ def step (r : Reg Inst) (line : String) : Reg Inst × Option String :=
       | none =>
         -- the generator passes only failing arguments to LoadDatabase*, inputs that define nothing to RunString and
         -- files that do not exist to RunFile (which then ends before anything is read or re-opened)
-        other name id (if name == "LoadDatabase" || name == "LoadDatabaseString" then some (.unload false)
+        other name id (if name == "AccumulateLine" then some .accumulate
+                       else if name == "LoadDatabase" || name == "LoadDatabaseString" then some (.unload false)
                        else if name == "RunString" then some .rerun else none)
   | ["g6", _, name, id] => other name id none
   | ["cell", id, _, _] => other "GetSelectedOutputValue" id none
